@@ -63,6 +63,8 @@ namespace sqf::parser::preprocessor
             size_t off = 0;
             size_t line = 1;
             size_t col = 0;
+            // line ends removed by backslash-newline continuations that the writer has not compensated for yet
+            size_t swallowed_newlines = 0;
             ::sqf::runtime::fileio::pathinfo pathinf;
             // Returns the next character.
             // Will not take into account to skip eg. comments or simmilar things!
@@ -128,6 +130,7 @@ namespace sqf::parser::preprocessor
                     if ((pc1 == '\r' && pc2 == '\n') || pc1 == '\n')
                     {
                         _next();
+                        swallowed_newlines++;
                         return next();
                     }
                 }
